@@ -3,10 +3,30 @@
 //!
 //! Runs the *real* rs-matter code (path dependency on the current working tree, feature `verif`)
 //! on generated or replayed operation sequences and writes the line protocol read by the Lean driver.
+#![allow(dead_code)]
 mod proto;
 mod rng;
 
+mod c01;
+mod c02;
+mod c03;
 mod c04;
+mod c05;
+mod c06;
+mod c07;
+mod c08;
+mod c09;
+mod c10;
+mod c11;
+mod c12;
+mod c13;
+mod c14;
+mod c15;
+mod c16;
+mod c17;
+mod c18;
+mod c19;
+mod c20;
 
 use std::collections::HashMap;
 
@@ -44,8 +64,46 @@ fn main() {
     // default hook quiet so that expected panics do not flood stderr.
     std::panic::set_hook(Box::new(|_| {}));
     let text = match (prop, mode) {
+        ("C01", "gen") => c01::gen(&a),
+        ("C01", "replay") => c01::replay(&a),
+        ("C02", "gen") => c02::gen(&a),
+        ("C02", "replay") => c02::replay(&a),
+        ("C03", "gen") => c03::gen(&a),
+        ("C03", "replay") => c03::replay(&a),
         ("C04", "gen") => c04::gen(&a),
         ("C04", "replay") => c04::replay(&a),
+        ("C05", "gen") => c05::gen(&a),
+        ("C05", "replay") => c05::replay(&a),
+        ("C06", "gen") => c06::gen(&a),
+        ("C06", "replay") => c06::replay(&a),
+        ("C07", "gen") => c07::gen(&a),
+        ("C07", "replay") => c07::replay(&a),
+        ("C08", "gen") => c08::gen(&a),
+        ("C08", "replay") => c08::replay(&a),
+        ("C09", "gen") => c09::gen(&a),
+        ("C09", "replay") => c09::replay(&a),
+        ("C10", "gen") => c10::gen(&a),
+        ("C10", "replay") => c10::replay(&a),
+        ("C11", "gen") => c11::gen(&a),
+        ("C11", "replay") => c11::replay(&a),
+        ("C12", "gen") => c12::gen(&a),
+        ("C12", "replay") => c12::replay(&a),
+        ("C13", "gen") => c13::gen(&a),
+        ("C13", "replay") => c13::replay(&a),
+        ("C14", "gen") => c14::gen(&a),
+        ("C14", "replay") => c14::replay(&a),
+        ("C15", "gen") => c15::gen(&a),
+        ("C15", "replay") => c15::replay(&a),
+        ("C16", "gen") => c16::gen(&a),
+        ("C16", "replay") => c16::replay(&a),
+        ("C17", "gen") => c17::gen(&a),
+        ("C17", "replay") => c17::replay(&a),
+        ("C18", "gen") => c18::gen(&a),
+        ("C18", "replay") => c18::replay(&a),
+        ("C19", "gen") => c19::gen(&a),
+        ("C19", "replay") => c19::replay(&a),
+        ("C20", "gen") => c20::gen(&a),
+        ("C20", "replay") => c20::replay(&a),
         _ => {
             eprintln!("unknown property/mode {} {}", prop, mode);
             std::process::exit(2);
